@@ -220,3 +220,26 @@ Theorem C06_validation_as_sets :
     Permutation (ve_subs e1) (ve_subs e2).
 Proof. exact validate_as_sets. Qed.
 Print Assumptions C06_validation_as_sets.
+
+(** ... for the public builders: two registration histories whose derive / attribute calls are
+    permutations of each other (substitute calls: any, as long as the resulting substitute
+    lists are permutations) yield validation errors equal as sets *)
+Theorem C06_validation_histories_as_sets :
+  forall (r : registry) (ops1 ops2 : list op),
+    Permutation (filter is_derive_op ops1) (filter is_derive_op ops2) ->
+    let st1 := fst (run_ops ops1) in
+    let st2 := fst (run_ops ops2) in
+    segs_functional ((dr_specific (b_dreg st1) ++ dr_recursive (b_dreg st1)) ++
+                     (dr_specific (b_dreg st2) ++ dr_recursive (b_dreg st2))) ->
+    Permutation (b_subs st1) (b_subs st2) ->
+    let e1 := validate (b_subs st1) (b_dreg st1) r in
+    let e2 := validate (b_subs st2) (b_dreg st2) r in
+    (NoDup (map fst (ve_derives e1)) /\ NoDup (map fst (ve_derives e2)) /\
+     (forall K, In K (map fst (ve_derives e1)) <-> In K (map fst (ve_derives e2))) /\
+     (forall K x y, In (K, x) (ve_derives e1) -> In (K, y) (ve_derives e2) -> same_set x y)) /\
+    (NoDup (map fst (ve_attrs e1)) /\ NoDup (map fst (ve_attrs e2)) /\
+     (forall K, In K (map fst (ve_attrs e1)) <-> In K (map fst (ve_attrs e2))) /\
+     (forall K x y, In (K, x) (ve_attrs e1) -> In (K, y) (ve_attrs e2) -> same_set x y)) /\
+    Permutation (ve_subs e1) (ve_subs e2).
+Proof. exact validate_histories_as_sets. Qed.
+Print Assumptions C06_validation_histories_as_sets.
